@@ -10,6 +10,7 @@ import (
 	"github.com/go-openapi/analysis/internal/flatten/replace"
 	"github.com/go-openapi/analysis/internal/flatten/schutils"
 	"github.com/go-openapi/analysis/internal/flatten/sortref"
+	"github.com/go-openapi/analysis/internal/verifhook"
 	"github.com/go-openapi/spec"
 	"github.com/go-openapi/swag"
 )
@@ -137,6 +138,7 @@ func uniqifyName(definitions spec.Definitions, name string) (string, bool) {
 	_, known := definitions[unique]
 
 	for known {
+		verifhook.Loop("uniqifyName")
 		idx++
 		unique = fmt.Sprintf("%s%d", name, idx)
 		_, known = definitions[unique]
